@@ -352,7 +352,7 @@ def analyse(job, impl, fv, model):
         P("pred", "crash", "the implementation died: %s" % next(l for l in impl if l.startswith(("CRASH", "ABORT", "TIMEOUT"))))
         return probs, info
     if len(impl) != len(sl):
-        P("pred", "crash", "transcript has %d lines for %d operations" % (len(impl), len(sl)))
+        P("pred", "crash", "transcript has %d lines for %d operations: %s" % (len(impl), len(sl), " | ".join(l[:60] for l in impl)))
         return probs, info
     nw = len(job.calls)
     if "open=ok" not in impl[0]:
@@ -524,6 +524,7 @@ class Stream:
         self.fine = FINE if cont != "noise" else 1
         self.sizes = {}                     # z -> measured size of the steered packet
         self.tried = set()
+        self.made = set()
 
     def index(self):
         return 1 if (self.kind == "prefix" and self.lead) else 0
@@ -532,6 +533,10 @@ class Stream:
         ch = self.ch
         x = -(-z // self.fine)
         y = min(x * self.fine - z, x * ch)
+        self.tried.add(z)
+        if (x, y) in self.made:             # (small x: y is capped, several z are the same file)
+            return None
+        self.made.add((x, y))
         body = self.body[:x * ch - y] + [0] * y
         if self.kind == "prefix":           # [4096 silent frames] + the first x frames of the stream: the steered packet is the final one
             xs = [0] * (self.lead * ch) + body
@@ -593,7 +598,7 @@ def boundary_campaign(ctx):
     jobs, hs, impl = [], {}, {}
     ladder_small = [2, 8, 24, 48, 96, 200, 400]
     ladder_big = [256, 1024, 2048, 3072, FPB - 1]
-    first = [st.job(x * st.fine, "p") for st in streams for x in (ladder_big if st.big else ladder_small)]
+    first = [j for j in (st.job(x * st.fine, "p") for st in streams for x in (ladder_big if st.big else ladder_small)) if j]
     rounds = [first]
     for rnd in range(7):
         cur = rounds[-1]
@@ -609,7 +614,7 @@ def boundary_campaign(ctx):
             want = set()
             for T in ([16383, 16384, 16385, 16386] if st.big else [127, 128, 129, 130]):
                 want.update(crossing(st, T))
-            nxt += [st.job(x, "w") for x in sorted(want)]
+            nxt += [j for j in (st.job(x, "w") for x in sorted(want)) if j]
         rounds.append(nxt)
     hit = collections.Counter()
     per_split = collections.Counter()
@@ -687,15 +692,6 @@ def run_harness(ctx, jobs):
         with concurrent.futures.ThreadPoolExecutor(max_workers=3) as ex:
             for r in ex.map(lambda k: ctx.batch(lst[k::3], workers=1, clean=True, env={"TMPDIR": dirs[k]}), range(3)):
                 impl.update(r)
-        # a transcript with the wrong number of lines (seen once in ~4000 jobs on a machine with load 65: one extra line, not reproducible) is
-        # re-run once on its own: a defect of the library is deterministic and shows again; what does not repeat is counted and kept in the notes
-        odd = [j for j in jobs if len(impl.get(j.name, [])) != len(j.lines)]
-        if odd and len(odd) <= 8:
-            again = ctx.batch([(j.name, hs[j.name]) for j in odd], workers=1, clean=True, env={"TMPDIR": dirs[0]})
-            for j in odd:
-                if len(again.get(j.name, [])) == len(j.lines):
-                    ctx.notes.setdefault("alac_transcripts_not_repeated", []).append({"job": j.name, "first_run": [l[:80] for l in impl.get(j.name, [])][:14]})
-                    impl[j.name] = again[j.name]
     finally:
         for d in dirs:
             shutil.rmtree(d, ignore_errors=True)
